@@ -141,3 +141,45 @@ Proof.
   exists (b_content M s'). split; [exact Es|]. split; [exact Wf|]. split; [exact Sem | exact Bk].
 Qed.
 End Spec.
+
+(* reading of the vocabulary of run_is_spec_index (every equation holds by unfolding definitions) *)
+Lemma run_is_spec_vocabulary (R : Type) (radd rmul : R -> R -> R) (A D V : Type) (val : tok A D -> V) (ph : A -> Z * Z)
+  (g1 : kind1 -> Z * Z -> list V -> m2 R) (g2 : kind2 -> bool -> Z * Z -> Z * Z -> list V -> m4 R) (grelax gflip : list V -> m2 R)
+  (theta : nat -> A) (dur : nat -> D) :
+  (* the run: RelabelMain.run at the instantiation; all phases 0 at the start *)
+  (forall L circ psi, own_run R radd rmul A D V val ph g1 g2 grelax gflip L circ psi
+     = RelabelMain.run R radd rmul (qcal V) (pcal V) (Z * Z)%type (op1 A V) (kind2 * bool)%type (gate1 R A V g1 grelax) (next1 A V ph) (gate2 R V g2) next2
+         (ro R V gflip) L (T1tab A D V val) (T2tab A D V val) circ p0 psi) /\
+  (* the tables: a label's own entries, an ordered pair's own entries *)
+  (forall q, T1tab A D V val q = mkqcal V (val (Tp (N.of_nat q))) (val (TT1 (N.of_nat q))) (val (TT2 (N.of_nat q))) (val (Ttm (N.of_nat q))) (val (Trout (N.of_nat q)))) /\
+  (forall c t, T2tab A D V val c t = mkpcal V (val (Ttint (N.of_nat c) (N.of_nat t))) (val (Tpint (N.of_nat c) (N.of_nat t)))) /\
+  (* one-qubit operations: own phase (negated, as circuit.py passes it), own p, T1, T2; a delay its own duration * dt *)
+  (forall th p c, gate1 R A V g1 grelax (O1rz A V th) p c = None /\ next1 A V ph (O1rz A V th) p = padd p (ph th)) /\
+  (forall k p c, gate1 R A V g1 grelax (O1g A V k) p c = Some (g1 k (pneg p) [c_p V c; c_T1 V c; c_T2 V c]) /\ next1 A V ph (O1g A V k) p = p) /\
+  (forall dt p c, gate1 R A V g1 grelax (O1relax A V dt) p c = Some (grelax [dt; c_T1 V c; c_T2 V c]) /\ next1 A V ph (O1relax A V dt) p = p) /\
+  (* two-qubit operations on the ordered pair (control, target): direction true = control index < target index *)
+  (forall k pc pt cc ct c2, gate2 R V g2 (k, true) pc pt cc ct c2
+     = g2 k false pc pt [c_tint V c2; c_pint V c2; c_p V cc; c_p V ct; c_T1 V cc; c_T2 V cc; c_T1 V ct; c_T2 V ct]) /\
+  (forall pc pt cc ct c2, gate2 R V g2 (KCX, false) pc pt cc ct c2
+     = swap4 (g2 KCX true pc pt [c_tint V c2; c_pint V c2; c_p V cc; c_p V ct; c_T1 V cc; c_T2 V cc; c_T1 V ct; c_T2 V ct])) /\
+  (forall pc pt cc ct c2, gate2 R V g2 (KECR, false) pc pt cc ct c2
+     = swap4 (g2 KECR true pt pc [c_tint V c2; c_pint V c2; c_p V ct; c_p V cc; c_T1 V ct; c_T2 V ct; c_T1 V cc; c_T2 V cc])) /\
+  (forall (G : m4 R) r c, swap4 G r c = G (snd r, fst r) (snd c, fst c)) /\
+  (forall pc pt, next2 (KCX, true) pc pt = (padd pc (quarter (-1)), pt) /\
+                 next2 (KCX, false) pc pt = (padd (padd pc (quarter 1)) (quarter 2), padd pt (quarter 1)) /\
+                 next2 (KECR, true) pc pt = (pc, pt) /\ next2 (KECR, false) pc pt = (pc, pt)) /\
+  (* read-out: bitflip(tm, rout) of the label under the internal qubit *)
+  (forall c, ro R V gflip c = gflip [c_tm V c; c_rout V c]) /\
+  (* the physical circuit of an instruction list *)
+  (forall used data, own_circ A D V val theta dur used data = flat_map (own_pops A D V val theta dur used) (numbered data)) /\
+  (forall used j x, own_pops A D V val theta dur used (j, x) = pops_annot A D V val used (theta j) (dur j) x) /\
+  (forall used th du q, pops_annot A D V val used th du (mkinstr OpRz [q] []) = [P1 (op1 A V) (kind2 * bool)%type (O1rz A V th) (N.to_nat q)] /\
+     pops_annot A D V val used th du (mkinstr OpSx [q] []) = [P1 (op1 A V) (kind2 * bool)%type (O1g A V KSX) (N.to_nat q)] /\
+     pops_annot A D V val used th du (mkinstr OpX [q] []) = [P1 (op1 A V) (kind2 * bool)%type (O1g A V KX) (N.to_nat q)] /\
+     pops_annot A D V val used th du (mkinstr OpDelay [q] [])
+       = (if memN q used then [P1 (op1 A V) (kind2 * bool)%type (O1relax A V (val (Ttime du))) (N.to_nat q)] else [])) /\
+  (forall used th du c t, pops_annot A D V val used th du (mkinstr OpCx [c; t] []) = [P2 (op1 A V) (kind2 * bool)%type (KCX, (c <? t)%N) (N.to_nat c) (N.to_nat t)] /\
+     pops_annot A D V val used th du (mkinstr OpEcr [c; t] []) = [P2 (op1 A V) (kind2 * bool)%type (KECR, (c <? t)%N) (N.to_nat c) (N.to_nat t)]) /\
+  (forall used th du qs cs, pops_annot A D V val used th du (mkinstr OpMeasure qs cs) = [] /\ pops_annot A D V val used th du (mkinstr OpBarrier qs cs) = [] /\
+     pops_annot A D V val used th du (mkinstr OpOther qs cs) = []).
+Proof. repeat split. intros []; reflexivity. Qed.
